@@ -21,11 +21,38 @@ impl<'a, T: Sync + 'a> ParallelIterator for Chunks<'a, T> {
 }
 impl<'a, T: Sync + 'a> IndexedParallelIterator for Chunks<'a, T> {}
 
+#[derive(Debug)]
+pub struct Windows<'a, T: Sync> {
+    s: &'a [T],
+    size: usize,
+}
+impl<'a, T: Sync + 'a> ParallelIterator for Windows<'a, T> {
+    type Item = &'a [T];
+    fn src_len(&self) -> usize {
+        (self.s.len() + 1).saturating_sub(self.size)
+    }
+    fn produce(&self, i: usize, sink: &mut dyn FnMut(&'a [T])) {
+        sink(&self.s[i..i + self.size])
+    }
+}
+impl<'a, T: Sync + 'a> IndexedParallelIterator for Windows<'a, T> {}
+
 pub trait ParallelSlice<T: Sync> {
     fn as_parallel_slice(&self) -> &[T];
     fn par_chunks(&self, chunk_size: usize) -> Chunks<'_, T> {
         assert!(chunk_size != 0, "chunk_size must not be zero");
         Chunks { s: self.as_parallel_slice(), size: chunk_size }
+    }
+    /// Like `par_chunks`, but the remainder that does not fill a whole chunk is NOT visited.
+    fn par_chunks_exact(&self, chunk_size: usize) -> Chunks<'_, T> {
+        assert!(chunk_size != 0, "chunk_size must not be zero");
+        let s = self.as_parallel_slice();
+        let whole = s.len() / chunk_size * chunk_size;
+        Chunks { s: &s[..whole], size: chunk_size }
+    }
+    fn par_windows(&self, window_size: usize) -> Windows<'_, T> {
+        assert!(window_size != 0, "window_size must not be zero");
+        Windows { s: self.as_parallel_slice(), size: window_size }
     }
 }
 impl<T: Sync> ParallelSlice<T> for [T] {
@@ -34,8 +61,43 @@ impl<T: Sync> ParallelSlice<T> for [T] {
     }
 }
 
+#[derive(Debug)]
+pub struct ChunksMut<'a, T: Send> {
+    ptr: *mut T,
+    len: usize,
+    size: usize,
+    _p: std::marker::PhantomData<&'a mut [T]>,
+}
+// SAFETY: the driver produces every chunk index exactly once; chunks do not overlap.
+unsafe impl<T: Send> Send for ChunksMut<'_, T> {}
+unsafe impl<T: Send> Sync for ChunksMut<'_, T> {}
+impl<'a, T: Send + 'a> ParallelIterator for ChunksMut<'a, T> {
+    type Item = &'a mut [T];
+    fn src_len(&self) -> usize {
+        (self.len + self.size - 1) / self.size
+    }
+    fn produce(&self, i: usize, sink: &mut dyn FnMut(&'a mut [T])) {
+        let lo = i * self.size;
+        let hi = (lo + self.size).min(self.len);
+        assert!(lo < hi);
+        sink(unsafe { std::slice::from_raw_parts_mut(self.ptr.add(lo), hi - lo) })
+    }
+}
+impl<'a, T: Send + 'a> IndexedParallelIterator for ChunksMut<'a, T> {}
+
 pub trait ParallelSliceMut<T: Send> {
     fn as_parallel_slice_mut(&mut self) -> &mut [T];
+    fn par_chunks_mut(&mut self, chunk_size: usize) -> ChunksMut<'_, T> {
+        assert!(chunk_size != 0, "chunk_size must not be zero");
+        let s = self.as_parallel_slice_mut();
+        ChunksMut { ptr: s.as_mut_ptr(), len: s.len(), size: chunk_size, _p: std::marker::PhantomData }
+    }
+    fn par_chunks_exact_mut(&mut self, chunk_size: usize) -> ChunksMut<'_, T> {
+        assert!(chunk_size != 0, "chunk_size must not be zero");
+        let s = self.as_parallel_slice_mut();
+        let whole = s.len() / chunk_size * chunk_size;
+        ChunksMut { ptr: s.as_mut_ptr(), len: whole, size: chunk_size, _p: std::marker::PhantomData }
+    }
     fn par_sort(&mut self)
     where
         T: Ord,
